@@ -290,7 +290,7 @@ func (engine) Run(ci any) lib.Result {
 			parts = append(parts, parName[par]+"="+obs.P[par].Class)
 		}
 		res.Oracle = "a failure is reported in some paradigms only: " + strings.Join(parts, " ") + " | " + firstMsg(obs)
-		res.Sig = "fail-some:" + failSig(c, obs)
+		res.Sig = failSig(c, obs)
 	}
 	if res.Oracle == "" && allOK {
 		for par := 1; par < 4; par++ {
@@ -536,7 +536,7 @@ func failSig(c *Case, o Obs) string {
 	for par := 0; par < 4; par++ {
 		parts = append(parts, o.P[par].Class)
 	}
-	return strings.Join(parts, ",")
+	return "fail-some:" + strings.Join(parts, ",")
 }
 
 func js(x any) string { b, _ := json.Marshal(x); return string(b) }
